@@ -39,14 +39,17 @@ func Verif_C20_minter_messages() {
 func Verif_C20_minter_queries() {
 	k, ctx := verifC20MinterCtx()
 	W.bank.fund(verifModuleAddr("someone"), "uc4e", verif_int_range("supply", "0", "1e30"))
-	g := sdk.WrapSDKContext(ctx.WithBlockTime(verif_time("queryTime")))
+	qt := verif_time("queryTime")
+	// performance bound, not a panic: at most 3 exponential steps between a period start and the query time
+	verif_assume(int64(qt.Sub(k.GetParams(ctx).StartTime)) <= 3000000000)
+	g := sdk.WrapSDKContext(ctx.WithBlockTime(qt))
 	nilReq := verif_choice("nilReq", 2) == 1
 	switch verif_choice("query", 3) {
 	case 0:
 		if nilReq {
 			_, _ = k.Inflation(g, nil)
 		} else {
-			verif_knob("unroll", 4)
+			verif_knob("unroll", 8)
 			_, _ = k.Inflation(g, &types.QueryInflationRequest{})
 		}
 	case 1:
